@@ -53,9 +53,18 @@ impl SendTrack {
 		self.shared.clone()
 	}
 
-	pub fn add_input(&mut self, input: &[Frame], volume: Decibels) {
-		for (input, added) in self.input.iter_mut().zip(input.iter().copied()) {
-			*input += added * volume.as_amplitude();
+	pub fn add_input(&mut self, input: &[Frame], volume: &Parameter<Decibels>) {
+		// the route volume is interpolated across the chunk like every other volume
+		// (applying its end-of-chunk value to the whole chunk makes a tween audible as steps)
+		let num_frames = input.len();
+		for (i, (input, added)) in self
+			.input
+			.iter_mut()
+			.zip(input.iter().copied())
+			.enumerate()
+		{
+			let time_in_chunk = (i + 1) as f64 / num_frames as f64;
+			*input += added * volume.interpolated_value(time_in_chunk).as_amplitude();
 		}
 	}
 
